@@ -136,6 +136,40 @@ def e_call(version, b, le, u=None, feeds=None):
         return f"{type(ex).__name__}: {ex}"
 
 
+def judge_big_internal(version, n):
+    """a batch longer than the sampler's internal buffer, drawn with the INTERNAL generator: the numbers the generator
+    handed out, in order, are one per event, and the energies are those of the same call with these numbers supplied"""
+    T = TR.load(version)
+    lax, bax = T["cdf_axes"]["log_e_nu"], T["cdf_axes"]["beta_rad"]
+    k = np.arange(n)
+    le = lax[0] + (lax[-1] - lax[0]) * ((k * 0.6180339887498949) % 1.0)
+    b = bax[0] + (bax[-1] - bax[0]) * ((k * 0.7548776662466927) % 1.0)
+    pos = [0]
+
+    def fn(idx, m):
+        t = ((np.arange(pos[0], pos[0] + m) + 0.5) * 0.5698402909980532) % 1.0
+        pos[0] += m
+        return t
+
+    t = taus(version)
+    stub = RngStub(fn=fn)
+    try:
+        with stub.installed():
+            got = np.asarray(t.tau_energy(b.copy(), le.copy()))
+    except Exception as ex:
+        return [("explicit_u_vs_internal_generator", "values", f"{type(ex).__name__}: {str(ex)[:80]}")]
+    handed = np.concatenate([np.asarray(r, dtype=float).ravel() for r in stub.returned]) if stub.returned else np.zeros(0)
+    if handed.size != n:
+        return [("explicit_u_vs_internal_generator", f"{n} numbers drawn for {n} in-range events", int(handed.size))]
+    exp = e_call(version, b, le, handed)
+    if isinstance(exp, str):
+        return [("explicit_u_batch", "values", exp)]
+    bad = np.where(exp != got)[0]
+    if len(bad):
+        return [("explicit_u_vs_internal_generator", f"event {int(bad[0])} of {n}: {float(exp[bad[0]])!r}", float(got[bad[0]]))]
+    return []
+
+
 def judge_mixed(version, b, le, u):
     """batch with explicit u == single-event explicit == single-event internal generator fed the same number;
     below-min angles bit-identical to min angle; above-max angles give eps32 * E."""
@@ -306,6 +340,12 @@ def run(ctx):
         ctx.cov["version_spellings_accepted"] = ctx.cov.get("version_spellings_accepted", 0) + n
         for c, e, o in v:
             ctx.violation(c, {"kind": "version_spellings", "version": ver}, e, o)
+    # batches around and beyond the sampler's buffer length (8192), internal generator against supplied numbers
+    for ver in (3, 1):
+        for n in ((8191, 8192, 8193, 20000) if ver == 3 else (8193,)):
+            ctx.tick(n, ("big_internal", ver, n > 8192))
+            for c, e, o in judge_big_internal(ver, n):
+                ctx.violation(c, {"kind": "big_internal", "version": ver, "n": n}, e, o)
     for ver in (3, 1, 2):
         T = TR.load(ver)
         lax = T["cdf_axes"]["log_e_nu"]
@@ -431,6 +471,8 @@ def replay(case):
 
         return pipeline.replay(case)
     k = case["kind"]
+    if k == "big_internal":
+        return judge_big_internal(case["version"], case["n"])
     if k == "version_spellings":
         return judge_version_spellings(case["version"])[0]
     if k == "sample":
